@@ -60,5 +60,61 @@ pub proof fn lemma_min_max_is_min_max<T: CoordNum>(p: T, min: T, max: T, r: (T, 
     }
 //@end
 
+// ------------------------------------------------------------------ bounding_rect of the fixed-size types (loop-free)
+//@type geo-types/src/geometry/point.rs | Point
+pub open spec fn imin(a: int, b: int) -> int { if a < b { a } else { b } }
+pub open spec fn imax(a: int, b: int) -> int { if a > b { a } else { b } }
+/// r is the componentwise min / max box of the two coordinates a and b
+pub open spec fn box_of_two<T: CoordNum>(r: Rect<T>, a: Coord<T>, b: Coord<T>) -> bool {
+    rmin(r).x.val() == imin(a.x.val(), b.x.val()) && rmin(r).y.val() == imin(a.y.val(), b.y.val())
+    && rmax(r).x.val() == imax(a.x.val(), b.x.val()) && rmax(r).y.val() == imax(a.y.val(), b.y.val())
+}
+pub trait BoundingRect<T: CoordNum> { type Output; fn bounding_rect(&self) -> Self::Output; }
+impl<T> BoundingRect<T> for Coord<T>
+where
+    T: CoordNum,
+{
+    type Output = Rect<T>;
+//@fn geo/src/algorithm/bounding_rect.rs | impl<T> BoundingRect<T> for Coord<T> where T: CoordNum, | bounding_rect | id=C19.V.coord_bounding_rect
+//@ret r
+//@spec
+        ensures box_of_two(r, *self, *self),
+//@end
+}
+impl<T> BoundingRect<T> for Point<T>
+where
+    T: CoordNum,
+{
+    type Output = Rect<T>;
+//@fn geo/src/algorithm/bounding_rect.rs | impl<T> BoundingRect<T> for Point<T> where T: CoordNum, | bounding_rect | id=C19.V.point_bounding_rect
+//@ret r
+//@spec
+        ensures box_of_two(r, self.0, self.0),
+//@end
+}
+impl<T> BoundingRect<T> for Line<T>
+where
+    T: CoordNum,
+{
+    type Output = Rect<T>;
+//@fn geo/src/algorithm/bounding_rect.rs | impl<T> BoundingRect<T> for Line<T> where T: CoordNum, | bounding_rect | id=C19.V.line_bounding_rect
+//@ret r
+//@spec
+        // the componentwise minimum and maximum of the two traversed coordinates (start, end)
+        ensures box_of_two(r, self.start, self.end),
+//@end
+}
+impl<T> BoundingRect<T> for Rect<T>
+where
+    T: CoordNum,
+{
+    type Output = Rect<T>;
+//@fn geo/src/algorithm/bounding_rect.rs | impl<T> BoundingRect<T> for Rect<T> where T: CoordNum, | bounding_rect | id=C19.V.rect_bounding_rect
+//@ret r
+//@spec
+        ensures r == *self,
+//@end
+}
+
 } // verus!
 fn main() {}
